@@ -684,6 +684,78 @@ def r12_value_mode_table(chk, prog):
     chk.require(n >= 12, 'value-mode combinations evaluated: %d' % n)
 
 
+def r14_level_counter_checks_new_level(chk, prog):
+    """a level counter that is incremented by a value-less use of its argument: the attached checks judge the level
+    the counter HAS afterwards (upper( N) refuses the use that lifts it above N, not the one after it).  The increment
+    branch of TypedArg< LevelCounter>::assign() is evaluated abstractly (Engine B, the counter modelled as an
+    integer) for several start levels: the text handed to check() is the decimal text of the level that is stored"""
+    from ..boolshape import Interp, NeedAtom, Unsupported
+    fs = [f for f in prog.functions if f.short == 'assign' and (f.cls or '').endswith('TypedArg<celma::common::LevelCounter>')
+          and f.body is not None]
+    if not fs:
+        fs = [f for f in prog.functions if f.short == 'assign' and 'LevelCounter' in (f.cls or '') and f.body is not None]
+    chk.require(fs, 'TypedArg< LevelCounter>::assign not instantiated')
+    f = fs[0]
+    n = 0
+    for start in (0, 1, 7):
+        ev = {'checked': []}
+
+        def obj_key(it, expr):
+            e0 = strip_all_casts(expr)
+            while e0.get('k') in ('ParenExpr', 'MaterializeTemporaryExpr', 'CXXBindTemporaryExpr') and children(e0):
+                e0 = strip_all_casts(children(e0)[0])
+            if e0.get('k') == 'MemberExpr':
+                return 'this.' + e0['ref']['name']
+            if e0.get('k') == 'DeclRefExpr':
+                return e0['ref']['name']
+            return None
+
+        def cb_value(it, call):
+            o = object_of(call)
+            k = obj_key(it, o) if o is not None else None
+            if k is not None:
+                return it.atom(k, 'ord')
+            return it.ev_obj(o)             # a temporary: its value
+
+        def cb_inc(it, call):
+            kids = children(call)
+            k = obj_key(it, kids[1])
+            if k is None:
+                raise Unsupported('increment of an unnamed counter')
+            old = it.atom(k, 'ord')
+            it.set_atom(k, old + 1)
+            return old if len(kids) > 2 else old + 1        # postfix form has the dummy int operand
+
+        def cb_assign(it, call):
+            kids = children(call)
+            k = obj_key(it, kids[1])
+            v = it.ev_obj(kids[2])
+            if k is None:
+                raise Unsupported('assignment to an unnamed counter')
+            it.set_atom(k, v)
+            return v
+
+        def cb_check(it, call):
+            ev['checked'].append(it.ev_obj(call_args(call)[0]))
+            return 0
+        cbs = {'value': cb_value, 'operator++': cb_inc, 'operator=': cb_assign, 'check': cb_check,
+               'to_string': lambda it, call: it.ev_obj(call_args(call)[0]),
+               'LevelCounter': lambda it, call: it.ev_obj(children(call)[0]) if children(call) else 0}
+        it = Interp(f, {'value': 0, 'this.mDestVar': start, 'this.mHasValueSet': 0, 'this.mAllowMixIncSet': 0,
+                        'this.mIncremented': 0}, callbacks=cbs, prog=None)
+        try:
+            out = it.run(f.body)
+        except (NeedAtom, Unsupported) as e:
+            raise AnalysisBroken('TypedArg< LevelCounter>::assign (increment) not interpretable: %s' % getattr(e, 'key', e))
+        stored = it.env.get('this.mDestVar')
+        n += 1
+        ok = out[0] == 'return' and stored == start + 1 and ev['checked'] == [start + 1]
+        chk.check(ok, 'R14', f.name, 'incrementing from level %d: the checks judge level %d, which is then stored' % (
+            start, start + 1), f.loc(), 'checked %s, stored %s%s' % (ev['checked'], stored,
+                                                                    ' (exception)' if out[0] == 'throw' else ''))
+    return n
+
+
 def run(chk):
     prog, units = rules.prog_args_program()
     chk.units = units
@@ -722,5 +794,7 @@ def run(chk):
     chk.rule('R13', "tokeniser: a requested value is taken from the rest of the same word only (so '-s -f' is a "
              "missing value)", 8)
     c01.r9_value_word_decision(chk, prog, rule='R13')
+    chk.rule('R14', 'level counter: the level that is checked is the level that is stored', 3)
+    r14_level_counter_checks_new_level(chk, prog)
     from . import c02_shapes
     c02_shapes.run(chk, prog)
